@@ -31,4 +31,15 @@ let install register get getn geti getb =
       | OpChmod m -> "chmod:" ^ hex_of_n m
       | OpChown (u, g) -> "chown:" ^ hex_of_n u ^ ":" ^ hex_of_n g
       | OpChtimes (a, m) -> "chtimes:" ^ hex_of_n a ^ ":" ^ hex_of_n m) ops) in
-    "ops=" ^ (if s = "" then "-" else s))
+    "ops=" ^ (if s = "" then "-" else s));
+  (* kind runls (c17): the whole long name of runLs, Mode/LongName.v. Z values come as sign + magnitude. The year-or-clock
+     decision depends on the moment runLs read the clock: the harness gives the second before and the second after, and a case
+     whose decision differs between the two is outside what can be compared (skip). *)
+  register "runls" (fun kv ->
+    let z neg mag = match getn kv mag with N0 -> Z0 | Npos p -> if getb kv neg then Zneg p else Zpos p in
+    let e = { le_mode = getn kv "mode"; le_links = getn kv "links"; le_uid = bytes_of_hex (get kv "uid");
+              le_gid = bytes_of_hex (get kv "gid"); le_size = z "sneg" "sabs"; le_mtime = z "mneg" "mabs";
+              le_name = bytes_of_hex (get kv "name") } in
+    let n0 = z "nneg0" "now0" and n1 = z "nneg1" "now1" in
+    if shows_year e.le_mtime n0 <> shows_year e.le_mtime n1 then "skip"
+    else "ls=" ^ hex_of_bytes (run_ls n0 e))
